@@ -58,9 +58,10 @@ ASSUMPTIONS = ["templates are compiled natively at setup; only rendering runs un
 # reproduced natively).  They are excluded -- exactly these (type, method) pairs -- in the `pre:` of
 # attr_ok and meth_ok so the rest of the check stays green.  VERIF_C19_NOEXCLUDE=1 disables the exclusion
 # (the solver then reports them again).
-EXCLUDED = [("deque", "appendleft"), ("deque", "extendleft"), ("deque", "popleft"), ("deque", "rotate"),
-            ("set", "intersection_update")]
-SUSPECTED_DEFECTS = [
+# All three defects below were repaired in /repo by "fix:" commits (see known_findings.json); nothing is
+# excluded any more, so a regression is reported as a VIOLATION.
+EXCLUDED = []
+FIXED_DEFECTS = [
     "ImmutableSandboxedEnvironment allows deque.appendleft / extendleft / popleft / rotate: modifies_known_mutable matches "
     "deque against the abc.MutableSequence row first (its method set lacks them); e.g. "
     "ImmutableSandboxedEnvironment().from_string('{{ dq.appendleft(9) }}').render(dq=deque([3,1,2])) mutates dq "
@@ -482,8 +483,7 @@ def NF():
 
 def _excluded_filter_input(expr, value):
     """Suspected defect 3: do_indent does `s += newline`, which extends a list/deque argument in place."""
-    if os.environ.get("VERIF_C19_NOEXCLUDE"):
-        return False
+    return False  # repaired in /repo: the indent filter no longer modifies its input
     if expr.startswith("D|indent"):
         return isinstance(value, (list, deque))
     if expr.startswith("D|map('indent'"):
